@@ -125,12 +125,12 @@ def st_hist(version):
     @st.composite
     def s(draw):
         r = draw(st.randoms(use_true_random=False))
-        return H.gen_history(r, version, {"p_rm": 0.3, "p_rename": 0.1, "load": 0.8, "steps": (3, 15)})
+        return H.gen_history(r, version, {"p_rm": 0.3, "p_rename": 0.1, "load": 0.8, "steps": (4, 18), "p_readd": 0.12})
     return s()
 
 
 def parts(tier):
     q = tier == "quick"
     return [Part("graphs", prop_graph, strategy=st_graph(), n=400 if q else 2000, quick_shards=2),
-            Part("hist-gfa1", prop_history, strategy=st_hist("gfa1"), n=150 if q else 600),
-            Part("hist-gfa2", prop_history, strategy=st_hist("gfa2"), n=150 if q else 600)]
+            Part("hist-gfa1", prop_history, strategy=st_hist("gfa1"), n=300 if q else 800, quick_shards=2),
+            Part("hist-gfa2", prop_history, strategy=st_hist("gfa2"), n=300 if q else 800, quick_shards=2)]
